@@ -450,8 +450,80 @@ def _alpha(fn: ast.FunctionDef) -> None:
     R().visit(fn)
 
 
+ASYNC_PROTOCOLS = ("__getitem_async__", "filter_async")
+
+
+def _drop_extension_points(fn: ast.AST) -> None:
+    """Assumption SIB-EXT made structural: render data and built-in filters do not implement the
+    optional async protocols, so ``hasattr(x, "__getitem_async__")`` / ``hasattr(f, "filter_async")``
+    is false.  (i) an ``if hasattr(<x>, <protocol>): ...`` statement is replaced by its ``else``
+    part; (ii) a nested helper that — after (i) — is just ``return <expr over its parameters>``
+    is inlined at its call sites (``await _get_item(obj, k)`` -> ``obj[k]``) and dropped."""
+
+    def is_probe(t) -> bool:
+        return isinstance(t, ast.Call) and isinstance(t.func, ast.Name) and t.func.id == "hasattr" and len(t.args) == 2 and isinstance(t.args[1], ast.Constant) and t.args[1].value in ASYNC_PROTOCOLS
+
+    def clean(body: list) -> list:
+        out = []
+        for st in body:
+            for fld in ("body", "orelse", "finalbody"):
+                sub = getattr(st, fld, None)
+                if isinstance(sub, list) and sub and isinstance(sub[0], ast.stmt):
+                    setattr(st, fld, clean(sub) or [ast.Pass()])
+            if isinstance(st, ast.Try):
+                for h in st.handlers:
+                    h.body = clean(h.body) or [ast.Pass()]
+            if isinstance(st, ast.If) and is_probe(st.test):
+                out.extend(st.orelse)
+                continue
+            out.append(st)
+        return out
+
+    fn.body = clean(fn.body)
+    helpers = {}
+    for st in list(fn.body):
+        if isinstance(st, (ast.FunctionDef, ast.AsyncFunctionDef)):
+            body = [x for x in st.body if not (isinstance(x, ast.Expr) and isinstance(x.value, ast.Constant))]
+            if len(body) == 1 and isinstance(body[0], ast.Return) and body[0].value is not None and not st.args.kwonlyargs and not st.args.vararg and not st.args.kwarg:
+                params = [a.arg for a in st.args.args]
+                free = {n.id for n in ast.walk(body[0].value) if isinstance(n, ast.Name)} - set(params)
+                if not free:
+                    helpers[st.name] = (params, body[0].value, st)
+    if not helpers:
+        return
+
+    class Inl(ast.NodeTransformer):
+        def visit_Await(self, node):
+            self.generic_visit(node)
+            return node
+
+        def visit_Call(self, node):
+            self.generic_visit(node)
+            if isinstance(node.func, ast.Name) and node.func.id in helpers and not node.keywords and len(node.args) == len(helpers[node.func.id][0]):
+                params, expr, _ = helpers[node.func.id]
+                env = dict(zip(params, node.args))
+
+                class Sub(ast.NodeTransformer):
+                    def visit_Name(self, n):
+                        return copy.deepcopy(env[n.id]) if n.id in env and isinstance(n.ctx, ast.Load) else n
+
+                return Sub().visit(copy.deepcopy(expr))
+            return node
+
+    fn.body = [st for st in fn.body if not (isinstance(st, (ast.FunctionDef, ast.AsyncFunctionDef)) and st.name in helpers)]
+    Inl().visit(fn)
+    # `await <non-call>` left behind by the substitution
+    class UnAwait(ast.NodeTransformer):
+        def visit_Await(self, node):
+            self.generic_visit(node)
+            return node.value if not isinstance(node.value, ast.Call) else node
+
+    UnAwait().visit(fn)
+
+
 def normal_form(fn_node, is_generator_ok: bool = False, sigs=None) -> ast.FunctionDef:
     node = copy.deepcopy(fn_node)
+    _drop_extension_points(node)
     node.decorator_list = [
         d for d in node.decorator_list if ast.unparse(d) not in ("abstractmethod",)
     ]
